@@ -42,6 +42,15 @@ CHECKS = {
  'C19': dict(tech='runtime oracle: dense extended-precision definitions of the kernels on random inputs; ASan on a subset',
    text='Direct calls of sp_?gemv/sp_?gemm (N/T/C, special alpha/beta, strides), sp_?trsv for all (uplo,trans) on factors produced by real multithreaded factorizations, ?langs for all norms, conversion/copy/permuted-view constructors, all four precisions.',
    note='Non-unit strides on the scatter/gather side abort with "Not implemented" (known finding).', ref='5/C19'),
+ 'C10': dict(tech='runtime oracle: independent quadratic reference (explicit pattern of (A*Pc)^T(A*Pc), naive symbolic elimination) on enumerated and random patterns; ASan on a subset',
+   text='get_perm_c(0..3) and sp_colorder in both modes on every 0/1 pattern with n<=3 (quick; n=4 sampled in thorough) and on random/structured patterns with empty/dense rows and columns; the reported etree must equal the reference parent function of the final A*Pc, be postordered (contiguous subtrees), and the returned ordering may differ from the callers only by a relabelling of its elimination tree; A*Pc must alias A.',
+   note='Single-threaded code: no schedule quantifier. Column counts are not range-checked (degenerate for structurally singular patterns).', ref='5/C10'),
+ 'C11': dict(tech='runtime oracle: exact/ulp-level recomputation of scale factors, ratios and the apply rule; exact comparison of scaled data',
+   text='?gsequ/?laqgs called directly on matrices of powers of two spanning the whole exponent range (clipping paths, zero rows/columns, 1x1, rectangular) and equilibrating expert-driver calls; every returned quantity is recomputed in extended precision and compared at ulp level; the driver outputs must equal the inputs scaled by the reported factors.',
+   note='Working-precision underflow of R*A is replicated (a column whose scaled entries all underflow is reported as zero, as in LAPACK).', ref='5/C11'),
+ 'C15': dict(tech='table-driven fault injection on arguments; error-handler interception, checksums and heap balance around each call',
+   text='Every single documented violation and pairs of violations for both drivers and six computational routines in four precisions; the harness replaces xerbla_ (a documented override point) to record (routine, position) and checks info, exactly-once reporting, byte-level immutability of all arguments, heap balance (ASan allocator statistics or mallinfo2) and thread census.',
+   note='Positions are transcribed from the routines header comments; B/X type checks are only expected from routines that document them.', ref='5/C15'),
 }
 checks = []
 for pid, d in CHECKS.items():
